@@ -7,6 +7,7 @@ import (
 	"go/types"
 	"os"
 	"path/filepath"
+	"regexp"
 	"sort"
 	"strings"
 
@@ -171,6 +172,8 @@ func loadProgram(dir string, patterns []string, tags string) (*Program, error) {
 	return p, nil
 }
 
+var qualTypeRe = regexp.MustCompile(`^(\*?)(\w+)\.(\w+)(\[(.*)\])?$`)
+
 func (p *Program) parseGhostType(s string, pk *packages.Package) (*Type, error) {
 	s = strings.TrimSpace(s)
 	if strings.HasPrefix(s, "gmap[") || strings.HasPrefix(s, "gset[") {
@@ -205,6 +208,56 @@ func (p *Program) parseGhostType(s string, pk *packages.Package) (*Type, error) 
 	}
 	if s == "real" {
 		return tReal, nil
+	}
+	if m := qualTypeRe.FindStringSubmatch(s); m != nil {
+		// pkgname.Type[args] possibly unexported: resolve through the imported package's scope directly
+		var ip *packages.Package
+		for _, cand := range p.pkgs {
+			if cand.Name == m[2] {
+				if _, imported := pk.Imports[cand.PkgPath]; imported || cand.PkgPath == pk.PkgPath {
+					ip = cand
+				}
+			}
+		}
+		if ip == nil {
+			// import alias used in the package's files
+			for _, f := range pk.Syntax {
+				for _, is := range f.Imports {
+					if is.Name != nil && is.Name.Name == m[2] {
+						path := strings.Trim(is.Path.Value, "\"")
+						ip = p.pkgs[path]
+					}
+				}
+			}
+		}
+		if ip != nil {
+			if obj := ip.Types.Scope().Lookup(m[3]); obj != nil {
+				var t types.Type = obj.Type()
+				if m[5] != "" {
+					named, ok := t.(*types.Named)
+					if !ok {
+						return nil, fmt.Errorf("%s is not generic", m[3])
+					}
+					var targs []types.Type
+					for _, a := range splitTop(m[5], ',') {
+						at, err := p.parseGhostType(a, pk)
+						if err != nil {
+							return nil, err
+						}
+						targs = append(targs, at.G)
+					}
+					it, err := types.Instantiate(nil, named, targs, false)
+					if err != nil {
+						return nil, err
+					}
+					t = it
+				}
+				if m[1] == "*" {
+					t = types.NewPointer(t)
+				}
+				return p.TypeOf(t, nil), nil
+			}
+		}
 	}
 	if s == "time" {
 		return &Type{K: KInt}, nil
